@@ -140,6 +140,47 @@ class Net(gen.ParamNet):
             self.calls, self.raise_at = calls, ra
 
 
+class ModNet(torch.nn.Module):
+    """The same deterministic predictor as ``Net`` but given to deepali as a ``torch.nn.Module`` (registered as a
+    submodule, its ``gain`` shows up in ``parameters()`` / ``state_dict()`` and receives gradients)."""
+
+    def __init__(self, net: Net):
+        super().__init__()
+        self.net = net
+        self.gain = Parameter(torch.ones(()))
+
+    # simulator interface (fault seam, non-faulting view)
+    def arm(self, k: int = 1):
+        self.net.arm(k)
+
+    @property
+    def owner(self):
+        return self.net.owner
+
+    @owner.setter
+    def owner(self, v):
+        self.net.owner = v
+
+    def forward(self, *args, **kwargs):
+        return self.net(*args, **kwargs) * self.gain
+
+    def peek(self, *args, **kwargs):
+        return self.net.peek(*args, **kwargs) * self.gain.detach()
+
+
+def is_module_net(p) -> bool:
+    return isinstance(p, ModNet)
+
+
+def reads_module_net(t) -> bool:
+    """Elementary transform t takes its parameters (possibly through links) from an nn.Module predictor."""
+    cur, seen = t, set()
+    while isinstance(getattr(cur, "params", None), SpatialTransform) and id(cur) not in seen:
+        seen.add(id(cur))
+        cur = cur.params
+    return is_module_net(getattr(cur, "params", None))
+
+
 class DictNet:
     """Callable producing a parameter dict for GenericSpatialTransform."""
 
@@ -843,6 +884,13 @@ class _Ops:
     def params_changed_in_place(self, params, what: str):
         """Model effect of an optimiser writing into ``params`` (which may belong to link targets)."""
         ptrs = {p.untyped_storage().data_ptr() for p in params}
+        if any(isinstance(n, ModNet) and n.gain.untyped_storage().data_ptr() in ptrs for n in self.nets):
+            # the predictor itself was optimised: every cached prediction and everything derived from one is outdated
+            for st_ in self.st.values():
+                st_.buf = "unknown"
+                st_.affine_params = False
+            for p_ in self.pairs:
+                p_.changed_since = True
         for st_ in list(self.st.values()):
             o = st_.obj
             if isinstance(o, CompositeTransform) or kind_of(o) not in ("P", "B"):
@@ -948,6 +996,8 @@ class _Ops:
                 return (n,) + tuple(holder["t"].data_shape)
 
             net = Net(op["init"]["seed"], shape_fn, self._net_scale(name, grid=grid), kind=gk)
+            if op.get("module_net"):
+                net = ModNet(net)
             self.nets.append(net)
             holder["t"] = probe
             obj = cls(grid, groups=N, params=net, **kw)
@@ -977,6 +1027,7 @@ class _Ops:
             if isinstance(t, CompositeTransform):
                 if generic_pred(t):
                     for m in t.transforms():
+                        self.state(m, x.comp).affine_params = False  # overwritten by the prediction
                         for mh in self.handles_of_obj(m):
                             self.mark_pairs(mh, True, "data_")
                 for m in t.transforms():
@@ -2015,6 +2066,8 @@ class _Ops:
             return StepResult("skipped")
         if isinstance(t, CompositeTransform) and any(generic_pred(m) for m in self.composites_below(t)):
             return StepResult("skipped")  # predicted member parameters only exist after update(); fit() does not update
+        if any((family(e.obj) == "lin" or kind_of(e.obj) == "L") and reads_module_net(e.obj) for e in self.elems(x)):
+            return StepResult("skipped")  # fit() of a linear model never re-predicts: second step re-uses the autograd graph
         if any(family(e.obj) == "lin" and kind_of(e.obj) in ("C", "L") and e.buf != "fresh" for e in self.elems(x)):
             # fit() evaluates disp() without update(): a linear model reads its cached prediction, which the
             # class documentation only defines after an update()
@@ -2407,6 +2460,8 @@ class _Gen:
             nout = HID_BLOCK
         if kind and "C" in kind:
             op["cseed"] = rng.subseed() if rng.chance(0.8) else None
+            if kind == "C" and fam in ("lin", "dense", "spline") and rng.chance(0.35):
+                op["module_net"] = True  # the parameter callable is an nn.Module (registered as submodule)
         op.update({"cls": name, "kind": kind, "grid": gd, "out": self.alloc(nout)})
         self.n_roots += 1
         return op
